@@ -5,7 +5,6 @@ package c11
 // All of it runs inside one testing/synctest bubble (virtual time, exact quiescence).
 
 import (
-	"bufio"
 	"bytes"
 	"context"
 	"encoding/binary"
@@ -82,6 +81,7 @@ type world struct {
 	stops      []*stopSide
 	lastOp     string
 	closed     bool
+	softc      map[string]int // observations that are NOT violations (the statement is one-sided: a refusal never violates it)
 	pipes      []*pipe
 	done       chan struct{}
 	stalled    bool // the virtual-time watchdog fired: the case is inconclusive
@@ -219,6 +219,34 @@ func (w *world) bad(sig, format string, a ...any) {
 	w.mu.Unlock()
 }
 
+// soft counts an observation that the statement does not forbid (unexpected refusals and their status codes).
+func (w *world) soft(key, format string, a ...any) {
+	w.logf("~~ %s: %s", key, fmt.Sprintf(format, a...))
+	w.mu.Lock()
+	if w.softc == nil {
+		w.softc = map[string]int{}
+	}
+	w.softc[key]++
+	w.mu.Unlock()
+}
+
+// admissible records, for the vacuity guard, whether a request that met every condition of the
+// statement (fault-free, sequential) was granted.
+func (w *world) admissible(op string, want statusSet, granted bool) {
+	if _, ok := want[pbv2.Status_OK]; !ok || len(want) != 1 || w.lenient {
+		return
+	}
+	w.mu.Lock()
+	if w.softc == nil {
+		w.softc = map[string]int{}
+	}
+	w.softc["admissible/"+op]++
+	if granted {
+		w.softc["admissible_granted/"+op]++
+	}
+	w.mu.Unlock()
+}
+
 func (w *world) failed() bool {
 	w.mu.Lock()
 	defer w.mu.Unlock()
@@ -260,8 +288,6 @@ func readMsg(r io.Reader, m gproto.Message) (int, error) {
 	}
 	return len(binary.AppendUvarint(nil, l)) + int(l), gproto.Unmarshal(buf, m)
 }
-
-var _ = bufio.NewReader
 
 // ---------------------------------------------------------------------------------------------
 // streams towards the relay
@@ -510,7 +536,11 @@ func (w *world) reserve(c *mconn) string {
 	out := w.doReserve(c)
 	synctest.Wait()
 	w.logf("RESERVE p%d over conn#%d(a%d %s) -> %s   acceptable %v", p, c.ord, c.addr, addrs[c.addr].ip, out, want)
-	if w.lenient && (!out.Got || out.Status != pbv2.Status_OK) {
+	w.admissible("reserve", want, out.Got && out.Status == pbv2.Status_OK)
+	if !out.Got && !w.lenient {
+		w.soft("refusal_status_unexpected/reserve/no-response", "p%d got no answer to RESERVE: %s", p, out.Err)
+	}
+	if !out.Got || (w.lenient && out.Status != pbv2.Status_OK) {
 		// "Delivery of the reservation might fail": the relay may have granted the reservation although
 		// the answer was lost. Acceptable only if a grant was admissible; the model follows the relay.
 		if exp, has := w.relay.VerifState().Rsvp[peers[p].id]; has && exp.Equal(now.Add(w.cfg.TTL)) {
@@ -522,18 +552,18 @@ func (w *world) reserve(c *mconn) string {
 		}
 		return "noresp"
 	}
-	if !out.Got {
-		w.bad("reserve:no-response", "p%d got no answer to RESERVE: %s", p, out.Err)
-		return "noresp"
-	}
 	why, acceptable := want[out.Status]
 	if !acceptable {
+		// The statement is one-sided ("granted only within ..."): only a GRANT can violate it. A refusal,
+		// whatever its status, is counted; its effect ("changes nothing") is checked by the audit.
 		if out.Status == pbv2.Status_OK {
 			w.bad("reserve:granted-"+denyClass(want), "p%d was GRANTED a reservation from %s although the statement forbids it: %v", p, addrs[c.addr].ip, want)
 		} else if _, okOK := want[pbv2.Status_OK]; okOK && len(want) == 1 {
-			w.bad("reserve:refused-though-admissible", "p%d refused with %s although relayed=false, ACL allows and all caps have room", p, out.Status)
+			w.soft("refused_though_admissible/reserve", "p%d refused with %s although relayed=false, ACL allows and all caps have room", p, out.Status)
+			why = "unexpected"
 		} else {
-			w.bad("reserve:status", "p%d answered %s, acceptable: %v", p, out.Status, want)
+			w.soft("refusal_status_unexpected/reserve/"+out.Status.String(), "p%d answered %s, expected one of %v", p, out.Status, want)
+			why = "unexpected"
 		}
 	}
 	if out.Status != pbv2.Status_OK {
@@ -705,9 +735,12 @@ func (w *world) connectReq(c *mconn, dst int, req string, sc stopScript) (string
 	out := w.doConnect(c, dstID, req, sc)
 	w.logf("CONNECT p%d(conn#%d a%d)->p%d req=%s stop=%s -> %s   acceptable %v", src, c.ord, c.addr, dst, req, sc.Kind, out, want)
 	vanished := req == "resetAfterSend"
+	if !vanished { // (a source that vanishes cannot be told OK)
+		w.admissible("connect", want, out.Got && out.Status == pbv2.Status_OK)
+	}
 	if !out.Got {
 		if !vanished && !malformed && !w.lenient {
-			w.bad("connect:no-response", "p%d got no answer to CONNECT: %s", src, out.Err)
+			w.soft("refusal_status_unexpected/connect/no-response", "p%d got no answer to CONNECT: %s", src, out.Err)
 		}
 		out.pe.resetPipe()
 		if vanished {
@@ -735,9 +768,12 @@ func (w *world) connectReq(c *mconn, dst int, req string, sc stopScript) (string
 		if out.Status == pbv2.Status_OK {
 			w.bad("connect:granted-"+denyClass(want), "CONNECT p%d->p%d answered OK although the statement forbids it: %v", src, dst, want)
 		} else if _, okOK := want[pbv2.Status_OK]; okOK && len(want) == 1 {
-			w.bad("connect:refused-though-admissible", "CONNECT p%d->p%d refused with %s although every condition of the statement holds", src, dst, out.Status)
+			// one-sided statement ("connects ... only if"): a refusal never violates it
+			w.soft("refused_though_admissible/connect", "CONNECT p%d->p%d refused with %s although every condition of the statement holds", src, dst, out.Status)
+			why = "unexpected"
 		} else {
-			w.bad("connect:status", "CONNECT p%d->p%d answered %s, acceptable: %v", src, dst, out.Status, want)
+			w.soft("refusal_status_unexpected/connect/"+out.Status.String(), "CONNECT p%d->p%d answered %s, expected one of %v", src, dst, out.Status, want)
+			why = "unexpected"
 		}
 	}
 	if out.Status != pbv2.Status_OK {
@@ -783,9 +819,6 @@ func (w *world) connectReq(c *mconn, dst int, req string, sc stopScript) (string
 	}
 	ci.halfS = req == "closeWriteAfterSend"
 	w.m.circs = append(w.m.circs, ci)
-	if why == "" {
-		why = "forbidden"
-	}
 	return "ok", ci
 }
 
